@@ -201,10 +201,6 @@ theorem sub_remove : ∀ (f : List String) (d d' : J), remove d f = .ok d' → S
           · simp [pure, Except.pure] at h; subst h; exact sub_insert hl hsc
     | _ => simp [remove] at h
 
-theorem sub_remove2 {e e' : J} {f t : List String} (h : remove2 e f t = .ok e') : Sub e' e := by
-  obtain ⟨e1, r1, r2⟩ := remove2_ok h
-  exact sub_trans (sub_remove t e1 e' r2) (sub_remove f e e1 r1)
-
 theorem sub_ignoreFields : ∀ (ig : List (List String)) (e e' : J), ignoreFields e ig = .ok e' → Sub e' e
   | [], e, e', h => by simp [ignoreFields] at h; subst h; exact sub_refl _
   | f :: fs, e, e', h => by
@@ -292,6 +288,17 @@ theorem sub_cherrypick (src : J) : ∀ (fs : List (List String)) (d d' : J),
         simp only [bind, Except.bind] at h
         exact sub_cherrypick src fs d1 d' (sub_ensure f src d d1 v hd hr (liftD_ok he)) h
 
+theorem sub_cherrypickSkip (src : J) : ∀ (fs : List (List String)) (d d' : J),
+    Sub d src → cherrypickSkip src d fs = .ok d' → Sub d' src
+  | [], d, d', hd, h => by simp [cherrypickSkip] at h; subst h; exact hd
+  | f :: fs, d, d', hd, h => by
+    simp only [cherrypickSkip] at h
+    cases hc : cherrypick src d [f] with
+    | ok d1 => rw [hc] at h; exact sub_cherrypickSkip src fs d1 d' (sub_cherrypick src [f] d d1 hd hc) h
+    | error e =>
+      rw [hc] at h
+      cases e <;> simp only [] at h <;> first | exact sub_cherrypickSkip src fs d d' hd h | cases h
+
 theorem sub_erase4 (kvs : Kvs) : Sub (.obj (erase4 kvs)) (.obj kvs) :=
   sub_trans (sub_erase _ _) (sub_trans (sub_erase _ _) (sub_trans (sub_erase _ _) (sub_erase _ _)))
 
@@ -308,12 +315,12 @@ theorem sub_baseBuild {ig extra : List (List String)} {b e : J} (h : baseBuild i
     simp only [tailBuild] at h
     split at h
     · cases h
-    · cases h3 : cherrypick (.obj kvs) (stage2 e1) extra with
+    · cases h3 : cherrypickSkip (.obj kvs) (stage2 e1) extra with
       | error er => rw [h3] at h; cases h
       | ok e3 =>
         rw [h3] at h
         simp only [] at h
-        have w3 := sub_cherrypick _ _ _ _ (sub_trans (sub_filterAnnotations _ e1) w1) h3
+        have w3 := sub_cherrypickSkip _ _ _ _ (sub_trans (sub_filterAnnotations _ e1) w1) h3
         split at h
         · cases h
         · exact sub_trans (sub_ignoreFields ig _ e h) (sub_trans (sub_removeEmptyStanzas e3) w3)
@@ -336,7 +343,7 @@ theorem sub_leafBuild {hs : Hashes} {extra : List (List String)} {b e : J} (l : 
   | status f ig =>
     simp only [leafBuild] at h
     obtain ⟨e1, h1, h2⟩ := bind_ok h
-    exact sub_trans (sub_remove f e1 e (liftD_ok h2)) (sub_baseBuild h1)
+    exact sub_trans (sub_ignoreFields [f] e1 e h2) (sub_baseBuild h1)
 
 /-- the pseudo-body of `MultiDiffBaseStorage.build` adds to the essence so far only what the real
     body has (`kind`, `metadata.ownerReferences`). -/
@@ -426,7 +433,7 @@ theorem sub_clearLeaf {e e' : J} (l : ProgressLeaf) (h : clearLeaf e l = .ok e')
   | status f t =>
     simp only [clearLeaf] at h
     obtain ⟨e0, h0, h2⟩ := bind_ok h
-    have w0 := sub_remove2 (liftD_ok h0)
+    have w0 := sub_ignoreFields [f, t] e e0 h0
     cases hm : metaOK e0 with
     | false => simp [hm, throw, throwThe, MonadExceptOf.throw, bind, Except.bind] at h2
     | true =>
@@ -546,7 +553,7 @@ theorem baseBuild_ignored_absent {ig extra : List (List String)} {b e : J} {f : 
     simp only [tailBuild] at h
     split at h
     · cases h
-    · cases h3 : cherrypick (.obj kvs) (stage2 e1) extra with
+    · cases h3 : cherrypickSkip (.obj kvs) (stage2 e1) extra with
       | error er => rw [h3] at h; cases h
       | ok e3 =>
         rw [h3] at h
@@ -740,7 +747,7 @@ theorem leaf_status_absent {hs : Hashes} {extra : List (List String)} {x e : J} 
     (h : leafBuild hs extra x (.status f ig) = .ok e) : Absent e f := by
   simp only [leafBuild] at h
   obtain ⟨e1, _, h2⟩ := bind_ok h
-  exact remove_absent f e1 e (liftD_ok h2)
+  exact ignoreFields_absent [f] e1 e f h2 List.mem_cons_self
 
 theorem leaf_ignored_absent {hs : Hashes} {extra : List (List String)} {x e : J} {f : List String} (l : DiffBaseLeaf)
     (h : leafBuild hs extra x l = .ok e) (hf : f ∈ leafIgnored l) : Absent e f := by
@@ -760,7 +767,7 @@ theorem leaf_ignored_absent {hs : Hashes} {extra : List (List String)} {x e : J}
   | status f' ig =>
     simp only [leafBuild] at h
     obtain ⟨e1, h1, h2⟩ := bind_ok h
-    exact absent_of_sub (sub_remove f' e1 e (liftD_ok h2)) (baseBuild_ignored_absent h1 hf)
+    exact absent_of_sub (sub_ignoreFields [f'] e1 e h2) (baseBuild_ignored_absent h1 hf)
 
 theorem leaf_keys_absent {hs : Hashes} {extra : List (List String)} {x e : J} {p key : String} {v1 : Bool}
     {ig : List (List String)} (h : leafBuild hs extra x (.annotations p key v1 ig) = .ok e) :
@@ -882,5 +889,69 @@ theorem essence_own_keys_absent {cfg : Cfg} {extra : List (List String)} {body e
     subst this
     rw [hks0] at hks'; cases hks'
     exact hall k hk
+
+/-! ### a handler's field that is absent from the body — or hidden behind a non-mapping value — restores nothing (kopf 571b1b2) -/
+
+theorem resolveE_error : ∀ (p : List String) (e : J) (x : Err), resolveE e p = .error x → x = .keyError ∨ x = .typeError
+  | [], e, x, h => by simp [resolveE] at h
+  | k :: ks, e, x, h => by
+    cases e with
+    | obj l =>
+      rw [resolveE_obj_cons] at h
+      cases hl : lookup k l with
+      | none => rw [hl] at h; cases h; exact Or.inl rfl
+      | some v => rw [hl] at h; exact resolveE_error ks v x h
+    | _ => simp [resolveE] at h; exact Or.inr h.symm
+
+theorem cherrypickSkip_cons_absent {src : J} {f : List String} (ha : Absent src f) (dst : J) (fs : List (List String)) :
+    cherrypickSkip src dst (f :: fs) = cherrypickSkip src dst fs := by
+  simp only [cherrypickSkip, cherrypick]
+  cases hr : resolveE src f with
+  | ok v => exact absurd ⟨v, hr⟩ ha
+  | error x => rcases resolveE_error f src x hr with rfl | rfl <;> rfl
+
+theorem cherrypickSkip_no_typeError (src : J) : ∀ (fs : List (List String)) (dst : J),
+    cherrypickSkip src dst fs ≠ .error .typeError
+  | [], dst => by simp [cherrypickSkip]
+  | f :: fs, dst => by
+    simp only [cherrypickSkip]
+    cases cherrypick src dst [f] with
+    | ok d1 => exact cherrypickSkip_no_typeError src fs d1
+    | error e => cases e <;> simp only [] <;> first | exact cherrypickSkip_no_typeError src fs dst | simp
+
+theorem baseBuild_cons_absent {b : J} {f : List String} (ha : Absent b f) (ig extra : List (List String)) :
+    baseBuild ig (f :: extra) b = baseBuild ig extra b := by
+  cases b with
+  | obj kvs => simp only [baseBuild, cherrypickSkip_cons_absent ha]
+  | _ => rfl
+
+theorem leafBuild_cons_absent {b : J} {f : List String} (ha : Absent b f) (hs : Hashes) (extra : List (List String))
+    (l : DiffBaseLeaf) : leafBuild hs (f :: extra) b l = leafBuild hs extra b l := by
+  cases l <;> simp only [leafBuild, baseBuild_cons_absent ha]
+
+theorem multiBuild_cons_absent {body : J} {f : List String} (ha : Absent body f) (hs : Hashes) (extra : List (List String)) :
+    ∀ (ls : List DiffBaseLeaf) (e : J), Sub e body → multiBuild hs (f :: extra) body e ls = multiBuild hs extra body e ls
+  | [], _, _ => rfl
+  | l :: ls, e, he => by
+    have hp : Sub (pseudoBody body e) body := sub_pseudoBody he
+    simp only [multiBuild, leafBuild_cons_absent (absent_of_sub hp ha)]
+    cases h1 : leafBuild hs extra (pseudoBody body e) l with
+    | error er => rfl
+    | ok e1 =>
+      simp only [bind, Except.bind]
+      exact multiBuild_cons_absent ha hs extra ls e1 (sub_trans (sub_leafBuild l h1) hp)
+
+theorem essence_cons_absent {body : J} {f : List String} (ha : Absent body f) (cfg : Cfg) (extra : List (List String)) :
+    essence cfg (f :: extra) body = essence cfg extra body := by
+  simp only [essence]
+  cases hd : cfg.diffbase with
+  | leaf l => simp only [diffbaseBuild, leafBuild_cons_absent ha]
+  | multi ls =>
+    simp only [diffbaseBuild, baseBuild_cons_absent ha]
+    cases h1 : baseBuild [] extra body with
+    | error er => rfl
+    | ok e1 =>
+      simp only [bind, Except.bind]
+      rw [multiBuild_cons_absent ha cfg.hashes extra ls e1 (sub_baseBuild h1)]
 
 end Kopf.C04
